@@ -1,6 +1,6 @@
 """C12 — A context keeps its own state."""
 
-from ..rules import isolation, pairing
+from ..rules import recursion, isolation, pairing
 
 
 def run(ctx, rep):
@@ -9,5 +9,6 @@ def run(ctx, rep):
     isolation.rule_nested_globals(ctx, rep, "C12-R4")
     isolation.rule_no_stale_deadline(ctx, rep, "C12-R5")
     isolation.rule_no_vm_bound_values_on_objects(ctx, rep, "C12-R7")
+    recursion.rule_persistent_path_balanced(ctx, rep, "C12-R8")
     pairing.rule_contextmanager_cleanup(ctx, rep, "C12-R6", where=lambda f: f.module.name in ("context", "vm", "values"), what=" of the runtime")
     rep.undecided += ["agreement with the abstract per-context dictionary model over histories (runtime property)"]
